@@ -83,6 +83,13 @@ func PropC15(c *vs.Case, f Factory, kind string) error {
 	scn := GenScn(c, GenOpts{Kind: kind, AllowFinalize: false})
 	scn.Cfg.SSA = false
 	scn.Cfg.CustomizeHook = true
+	dying := c.Prob(1, 4)
+	if dying {
+		// the parent gets deleted on the way; its finalize hook is shown the related objects too and never finishes
+		scn.Cfg.FinalizeHook = true
+		scn.Prog.FinalizeMode = 1
+		scn.Prog.FinalizedMode = 2
+	}
 	namespaced := scn.ParentNS() != ""
 	rules, invalid, why := genRelatedRules(c, namespaced)
 	scn.Prog.Related = rules
@@ -148,6 +155,11 @@ func PropC15(c *vs.Case, f Factory, kind string) error {
 				o["spec"].(map[string]any)["other"] = fmt.Sprintf("gen%d", s)
 			})
 			log = append(log, "parent generation bumped")
+		}
+		if dying && s > 0 && env.Parent() != nil && !IsDeleting(env.Parent()) && c.Bool() {
+			env.W.Sim.ExtDelete(scn.Cfg.ParentResource, scn.ParentNS(), scn.ParentName(), "")
+			log = append(log, "parent deleted (held by the controller's finalizer)")
+			c.Class("parent-terminating")
 		}
 		env.W.SyncAll()
 		failCustomize := c.Prob(1, 6)
